@@ -31,8 +31,11 @@ func VerifHarness_C01_Recovery() {
 	limit := verifInt("limit")
 	verifAssume(limit >= 1) // the CLI passes a validated limit (1..100)
 	q := vLetter2("q1")
-	if verifBool("twoWords") {
+	switch verifIntRange("words", 1, 3) {
+	case 2:
 		q = q + " " + vLetter2("q2")
+	case 3:
+		q = q + " " + vLetter2("q2") + " " + vLetter2("q3")
 	}
 	res, err := NewSearchRecovery().RecoverFromSearchFailureWithLimit(q, nil, db, limit)
 	if err != nil {
